@@ -8,6 +8,7 @@ import (
 	"encoding/binary"
 	"fmt"
 	"io"
+	"strings"
 
 	"verif/gen"
 	"verif/mc"
@@ -48,6 +49,8 @@ func pattern(n int, seed byte) []byte {
 
 type c11Tree struct {
 	degenerate bool // box sizes honest, but a child's content is too short for its type
+	rearranged bool // the CMT boxes are not CMT1..CMT4 once each in that order
+	nCMT       int  // number of CMT boxes in the tree
 	top        []*gen.Box
 	doc        *gen.Doc
 	all        []*gen.Box // DFS order
@@ -114,6 +117,31 @@ func c11Build(x *mc.Exec, malformed bool) (*c11Tree, string) {
 			set("THMB", 5)
 		}
 	}
+	// the CMT boxes in another arrangement (each box still says what it is: CMTn)
+	rearranged := false
+	if arr := x.Choose("cmt-arrangement", 6); arr > 0 {
+		rearranged = true // the merged record depends on the order the directories are met in
+		idx := map[string]int{}
+		for i, c := range metaU.Children {
+			idx[c.Type] = i
+		}
+		i1, i2, i3, i4 := idx["CMT1"], idx["CMT2"], idx["CMT3"], idx["CMT4"]
+		ch := metaU.Children
+		c1, c2, c3, c4 := ch[i1], ch[i2], ch[i3], ch[i4]
+		switch arr {
+		case 1: // no maker-note box
+			metaU.Children = append(append([]*gen.Box{}, ch[:i3]...), ch[i3+1:]...)
+		case 2:
+			ch[i1], ch[i2], ch[i3], ch[i4] = c1, c4, c2, c3
+		case 3:
+			ch[i1], ch[i2] = c2, c1
+		case 4: // a second CMT1 after CMT4
+			dup := &gen.Box{Type: "CMT1", Payload: c1.Payload}
+			metaU.Children = append(append(append([]*gen.Box{}, ch[:i4+1]...), dup), ch[i4+1:]...)
+		case 5: // only the GPS box
+			metaU.Children = append(append(append([]*gen.Box{}, ch[:i1]...), c4), ch[i4+1:]...)
+		}
+	}
 	ins := x.Choose("insert-unknown-box", 1+7*3)
 	if ins > 0 {
 		where, size := (ins-1)/3, []int{0, 1, 100}[(ins-1)%3]
@@ -150,8 +178,13 @@ func c11Build(x *mc.Exec, malformed bool) (*c11Tree, string) {
 	case 2:
 		top = append(top, &gen.Box{Type: "free", Payload: &gen.Doc{B: make([]byte, 8)}})
 	}
-	t := &c11Tree{top: top, rec: rec, parts: parts, degenerate: degenerate}
-	gen.Walk(top, func(b *gen.Box, d int) { t.all = append(t.all, b) })
+	t := &c11Tree{top: top, rec: rec, parts: parts, degenerate: degenerate, rearranged: rearranged}
+	gen.Walk(top, func(b *gen.Box, d int) {
+		t.all = append(t.all, b)
+		if strings.HasPrefix(b.Type, "CMT") {
+			t.nCMT++
+		}
+	})
 	if lb := x.Choose("64-bit-size-box", len(t.all)+1); lb > 0 {
 		t.all[lb-1].Large = true
 	}
@@ -288,7 +321,7 @@ func c11Harness(malformed bool) mc.Harness {
 					b, idx = c, j
 				}
 			}
-			if b == nil && nExif < 4 {
+			if b == nil && nExif < 4 && !t.rearranged {
 				b = cmts[nExif]
 			}
 			nExif++
@@ -448,10 +481,10 @@ func c11Harness(malformed bool) mc.Harness {
 				}
 			}
 			if wellFormed {
-				if nExif != 4 {
-					fail("cmt-callbacks", fmt.Sprintf("%d Exif callbacks, want 4 (CMT1-CMT4)", nExif))
+				if nExif != t.nCMT {
+					fail("cmt-callbacks", fmt.Sprintf("%d Exif callbacks, want %d (one per CMT box)", nExif, t.nCMT))
 				}
-				if eb == 0 {
+				if eb == 0 && !t.rearranged {
 					// (d) the decoded record equals the record put in
 					gotO := obs.Exif(ir.Exif, false)
 					wantO := obs.ExpectExif(t.rec, "image/x-canon-cr3")
@@ -504,7 +537,7 @@ func init() {
 			}
 			return []mc.Space{
 				{Name: "well-formed-trees", H: c11Harness(false), Bound: b, Isolate: true,
-					Rule: "canonical CR3 box tree (ftyp, moov{uuid-meta{CNCV,CCTP{CCDT,CCDT},CTBO,free,CMT1-4,THMB},mvhd,trak{tkhd,mdia{mdhd,hdlr}}}, uuid-xpacket, uuid-preview{PRVW}, mdat); deviations: xpacket/preview size menus, skeleton variants (free / unknown top-level box, unknown children, 64-bit uuid sizes), an unknown box (zzzz, uuid with a foreign usertype in 32- and 64-bit form, skip) inserted at 7 places x 3 sizes, a trailing 8/16-byte box, any one box in 64-bit size form, ftyp with 0/1/8/9/12/40 compatible brands, a metadata child with content too short for its type (CNCV, CTBO, CMT3, CCTP, THMB; sizes honest); x both byte orders x 5 Exif / 3 XMP / 3 preview callback behaviours"},
+					Rule: "canonical CR3 box tree (ftyp, moov{uuid-meta{CNCV,CCTP{CCDT,CCDT},CTBO,free,CMT1-4,THMB},mvhd,trak{tkhd,mdia{mdhd,hdlr}}}, uuid-xpacket, uuid-preview{PRVW}, mdat); deviations: xpacket/preview size menus, skeleton variants (free / unknown top-level box, unknown children, 64-bit uuid sizes), an unknown box (zzzz, uuid with a foreign usertype in 32- and 64-bit form, skip) inserted at 7 places x 3 sizes, a trailing 8/16-byte box, any one box in 64-bit size form, ftyp with 0/1/8/9/12/40 compatible brands, a metadata child with content too short for its type (CNCV, CTBO, CMT3, CCTP, THMB; sizes honest), the CMT boxes in 5 other arrangements (one missing, reordered, duplicated, only CMT4); x both byte orders x 5 Exif / 3 XMP / 3 preview callback behaviours"},
 				{Name: "overstated-children", H: c11Harness(true), Bound: b, Isolate: true,
 					Rule: "the same trees with any one box declaring a size off by {+1,+8,-1,-8,+64Ki,+2^31-1,+2^31,+2^32-1,+2^40}, optionally together with its parent (same amount or 64 more) or parent and grandparent (cooperating sites; the top-level box stays honest): no callback and no call may leave the stream beyond the end of the box being handled or of the enclosing top-level box; trivial = no overstatement"},
 			}
